@@ -424,7 +424,7 @@ def run(model: RepoModel, rep, tier: str):
     key = "util/util.py::check_file_processing_flag_and_extract_lang::accepts name == req or name.endswith('-' + req)"
     tests = [norm(n.test) for n in walk_no_nested(chk.node) if isinstance(n, ast.If)]
     p0, p1 = chk.params[0], chk.params[1]
-    ok = f"{p0} == {p1}" in tests and any(t == f"{p0}.endswith('-' + {p1})" for t in tests)
+    ok = (f"{p0} == {p1}" in tests or f"{p1} == {p0}" in tests) and any(t == f"{p0}.endswith('-' + {p1})" for t in tests)
     (rep.holds if ok else rep.violation)("C20.R5", key, "util/util.py", chk.node.lineno,
                                          "equality or '-'+name suffix" if ok else f"the acceptance tests are {tests}: other files are (not) read as entry rules")
 
